@@ -313,3 +313,25 @@ def gen_density_terms(rnd, sites, qn_size):
                 terms.append({"sym": local[i][0] + " " + local[j][0], "dofs": list(local[i][1]) + list(local[j][1]), "factor": [c, 0.0],
                               "qn": [list(x) for x in local[i][2]] + [list(x) for x in local[j][2]]})
     return terms
+
+
+def gen_stress_terms(rnd, sites, nterms):
+    """Production-size term list on a few two-level sites: thousands of terms, hundreds of DISTINCT local operator strings per site
+    (the symbolic algorithms index local operators and bond labels with small integers)."""
+    alphabet = ["X", "Y", "Z", "sigma_+", "sigma_-", "sigma_x", "sigma_z"]
+    terms, seen = [], set()
+    tries = 0
+    while len(terms) < nterms and tries < 20 * nterms:
+        tries += 1
+        syms, dofs, qns = [], [], []
+        for st in sites:
+            if rnd.random() < 0.75:
+                k = rnd.choice([1, 2, 3, 3])
+                for _ in range(k):
+                    syms.append(rnd.choice(alphabet)); dofs.append(st["dof"]); qns.append([0])
+        key = (tuple(syms), tuple(dofs))
+        if not syms or key in seen:
+            continue
+        seen.add(key)
+        terms.append({"sym": " ".join(syms), "dofs": dofs, "factor": [round(rnd.uniform(-1, 1), 5) or 0.3, 0.0], "qn": qns})
+    return terms
